@@ -33,15 +33,23 @@
 From Coq Require Import List Arith Bool.
 Import ListNotations.
 
-(* An exception object is one of the library's static exception objects (TypeError,
-   ValueError, ...); the model names them by an index ("kind").  The message is the text
-   exception_throw formats into e->msg; the model keeps it as a number (the harness throws
-   with the format "m%d"). *)
+(* An exception object is any Cello object: one of the library's static exception Type objects
+   (TypeError, ValueError, ...), another Type object of the same name, a heap Int or String used as
+   an exception value, a copy of a caught object ...  The model names an object by a number [o], its
+   IDENTITY (the pointer).  exception_catch compares filter entries with the thrown object by
+   `eq` (cmp = 0: Type objects by name, Int/String by value), not by identity; [kind_of o] is the
+   eq-class of object o, so distinct objects 10*k, 10*k+1, .. are `eq` to each other.  The machine's
+   [obj] field and the handler variable hold the identity.
+   The message is the text exception_throw formats into e->msg; the model keeps it as a number: the
+   harness throws with the format "m%i" and that number, and message 0 is the EMPTY format
+   `throw(X, "")` (e->msg becomes the empty string, as in a fresh record). *)
+Definition kind_of (o : nat) : nat := Nat.div o 10.
+
 Inductive prog : Type :=
 | PSkip                                         (* ;                                          *)
 | PTick (n : nat)                               (* an observable statement                     *)
 | PSeq (p q : prog)                             (* p; q                                        *)
-| PThrow (k m : nat)                            (* throw(K_k, "m%d", m)                        *)
+| PThrow (o m : nat)                            (* throw(X_o, "m%i", m)  /  throw(X_o, "") for m = 0 *)
 | PTry (body : prog) (filters : list nat) (handler : prog)
                                                 (* try { body } catch (e in filters) { handler } *)
 | PCall (p : prog).                             (* f(); where the body of f is p — dynamic nesting.
@@ -53,7 +61,7 @@ Inductive prog : Type :=
 (* Observations.  [d] is len(current(Exception)) = e->depth at that moment. *)
 Inductive event : Type :=
 | ETick (n d : nat)                             (* statement n executed                        *)
-| EHandler (k m d : nat).                       (* handler entered; bound object k; e->msg = m *)
+| EHandler (o m d : nat).                       (* handler entered; bound object (identity) o; e->msg = m *)
 
 (* ------------------------------------------------------------------ the machine state *)
 
@@ -108,18 +116,24 @@ Definition jump_or_die (st : mstate) : mout :=
   | [] => MDied (obj st) (msg st)
   end.
 
+(* print_to_with(e->msg, 0, fmt, args): the message is written over the old one from position 0 —
+   but an EMPTY format writes nothing at all (the loop of print_to_with ends at once), so the
+   record keeps the message of the previous throw.  Observed on the real library; the property
+   does not speak about messages, the model follows the code. *)
+Definition set_msg (m old : nat) : nat := if m =? 0 then old else m.
+
 (* var exception_throw(var obj, const char* fmt, var args) *)
 Definition exception_throw (k m : nat) (st : mstate) : mstate * mout :=
-  let st' := MS (Some k) m (bufs st) (active st) in
+  let st' := MS (Some k) (set_msg m (msg st)) (bufs st) (active st) in
   (st', jump_or_die st').
 
 (* "If no Arguments catch all", otherwise eq(get(args, $I(i)), e->obj) for some i < len(args).
    (The pinned code walked the filter with foreach; see tuple_next / foreach_matches below for
    why that is the same on duplicate-free filters only.) *)
-Definition matches (filters : list nat) (k : nat) : bool :=
+Definition matches (filters : list nat) (o : nat) : bool :=
   match filters with
   | [] => true
-  | _ => existsb (Nat.eqb k) filters
+  | _ => existsb (fun f => kind_of f =? kind_of o) filters      (* eq(filter_i, e->obj) *)
   end.
 
 Inductive catch_result : Type :=
@@ -194,27 +208,30 @@ End Machine.
 
 Inductive rres : Type := RNormal | RRaised (k m : nat).
 
-(* Structured semantics; [d] = number of try bodies around the current point. *)
-Fixpoint ref_run (d : nat) (p : prog) : list event * rres :=
+(* Structured semantics; [d] = number of try bodies around the current point; [c] = the message the
+   thread's record holds when the construct starts.  The third component of the result is the
+   message held when it ends (for [RRaised k m] that is m).  The message register is the only state:
+   it is needed because a throw with the empty format keeps the previous message. *)
+Fixpoint ref_run (d : nat) (c : nat) (p : prog) : list event * rres * nat :=
   match p with
-  | PSkip => ([], RNormal)
-  | PTick n => ([ETick n d], RNormal)
+  | PSkip => ([], RNormal, c)
+  | PTick n => ([ETick n d], RNormal, c)
   | PSeq p q =>
-      let '(t1, r1) := ref_run d p in
+      let '(t1, r1, c1) := ref_run d c p in
       match r1 with
-      | RNormal => let '(t2, r2) := ref_run d q in (t1 ++ t2, r2)
-      | RRaised k m => (t1, RRaised k m)
+      | RNormal => let '(t2, r2, c2) := ref_run d c1 q in (t1 ++ t2, r2, c2)
+      | RRaised k m => (t1, RRaised k m, c1)
       end
-  | PThrow k m => ([], RRaised k m)
-  | PCall p => ref_run d p
+  | PThrow k m => ([], RRaised k (set_msg m c), set_msg m c)
+  | PCall p => ref_run d c p
   | PTry b fs h =>
-      let '(t1, r1) := ref_run (S d) b in
+      let '(t1, r1, c1) := ref_run (S d) c b in
       match r1 with
-      | RNormal => (t1, RNormal)
+      | RNormal => (t1, RNormal, c1)
       | RRaised k m =>
           if matches fs k
-          then let '(t2, r2) := ref_run d h in (t1 ++ EHandler k m d :: t2, r2)
-          else (t1, RRaised k m)
+          then let '(t2, r2, c2) := ref_run d c1 h in (t1 ++ EHandler k m d :: t2, r2, c2)
+          else (t1, RRaised k m, c1)
       end
   end.
 
@@ -259,7 +276,7 @@ Fixpoint foreach_matches (fuel : nat) (items : list nat) (cur : option nat) (k :
   | S f =>
       match cur with
       | None => Some false                          (* Terminal: loop left, no match *)
-      | Some c => if Nat.eqb k c then Some true     (* eq(arg, e->obj) *)
+      | Some c => if kind_of c =? kind_of k then Some true     (* eq(arg, e->obj) *)
                   else foreach_matches f items (tuple_next items c) k
       end
   end.
@@ -268,23 +285,28 @@ Fixpoint foreach_matches (fuel : nat) (items : list nat) (cur : option nat) (k :
    (ExnProofs.eval_iff_ref_run: it is the graph of [ref_run]).  The three rules for PTry are the
    property's sentence "a handler runs if and only if an exception raised in its own try body was
    not already handled by an inner block and matches its filter". *)
-Inductive eval : nat -> prog -> list event -> rres -> Prop :=
-| EvSkip : forall d, eval d PSkip [] RNormal
-| EvTick : forall d n, eval d (PTick n) [ETick n d] RNormal
-| EvSeqNormal : forall d p q t1 t2 r,
-    eval d p t1 RNormal -> eval d q t2 r -> eval d (PSeq p q) (t1 ++ t2) r
-| EvSeqRaised : forall d p q t1 k m,
-    eval d p t1 (RRaised k m) -> eval d (PSeq p q) t1 (RRaised k m)
-| EvThrow : forall d k m, eval d (PThrow k m) [] (RRaised k m)
-| EvCall : forall d p t r, eval d p t r -> eval d (PCall p) t r
-| EvTryNormal : forall d b fs h t,            (* nothing reaches this block: the handler stays out *)
-    eval (S d) b t RNormal -> eval d (PTry b fs h) t RNormal
-| EvTryHandled : forall d b fs h t1 k m t2 r, (* the body let k escape and the filter accepts it *)
-    eval (S d) b t1 (RRaised k m) -> (fs = [] \/ In k fs) ->
-    eval d h t2 r -> eval d (PTry b fs h) (t1 ++ EHandler k m d :: t2) r
-| EvTryPassed : forall d b fs h t1 k m,       (* the filter does not accept k: outwards, untouched *)
-    eval (S d) b t1 (RRaised k m) -> fs <> [] -> ~ In k fs ->
-    eval d (PTry b fs h) t1 (RRaised k m).
+Definition accepts (fs : list nat) (o : nat) : Prop :=      (* empty filter, or some entry is eq to o *)
+  fs = [] \/ exists f, In f fs /\ kind_of f = kind_of o.
+Definition rejects (fs : list nat) (o : nat) : Prop :=
+  fs <> [] /\ forall f, In f fs -> kind_of f <> kind_of o.
+
+Inductive eval : nat -> nat -> prog -> list event -> rres -> nat -> Prop :=
+| EvSkip : forall d c, eval d c PSkip [] RNormal c
+| EvTick : forall d c n, eval d c (PTick n) [ETick n d] RNormal c
+| EvSeqNormal : forall d c p q t1 c1 t2 r c2,
+    eval d c p t1 RNormal c1 -> eval d c1 q t2 r c2 -> eval d c (PSeq p q) (t1 ++ t2) r c2
+| EvSeqRaised : forall d c p q t1 k m c1,
+    eval d c p t1 (RRaised k m) c1 -> eval d c (PSeq p q) t1 (RRaised k m) c1
+| EvThrow : forall d c k m, eval d c (PThrow k m) [] (RRaised k (set_msg m c)) (set_msg m c)
+| EvCall : forall d c p t r c', eval d c p t r c' -> eval d c (PCall p) t r c'
+| EvTryNormal : forall d c b fs h t c1,        (* nothing reaches this block: the handler stays out *)
+    eval (S d) c b t RNormal c1 -> eval d c (PTry b fs h) t RNormal c1
+| EvTryHandled : forall d c b fs h t1 k m c1 t2 r c2, (* the body let k escape and the filter accepts it *)
+    eval (S d) c b t1 (RRaised k m) c1 -> accepts fs k ->
+    eval d c1 h t2 r c2 -> eval d c (PTry b fs h) (t1 ++ EHandler k m d :: t2) r c2
+| EvTryPassed : forall d c b fs h t1 k m c1,   (* the filter does not accept k: outwards, untouched *)
+    eval (S d) c b t1 (RRaised k m) c1 -> rejects fs k ->
+    eval d c (PTry b fs h) t1 (RRaised k m) c1.
 
 (* [chain levels p]: p wrapped in try blocks, innermost first: levels = [(fs1,h1); (fs2,h2); ..]
    gives  try { try { p } catch (fs1) { h1 } } catch (fs2) { h2 } ... *)
